@@ -384,7 +384,7 @@ Restart ==
     /\ lc' = LcIdle /\ nt' = NtIdle /\ queued' = {} /\ cache' = FALSE
     \* the only record of a created instance whose provider id was not persisted dies with the process
     /\ lostLaunch' = (lostLaunch \/ (cache /\ nc.exists /\ nc.pid = "-"))
-    /\ Hist([a |-> "Restart"])
+    /\ Hist([a |-> "Restart", mid |-> ~Idle])      \* mid: the process died inside a reconcile
     /\ UNCHANGED <<nc, node, pod, va, inst, everCreated, provGone, tgpElapsed, drainOld, faults, spont, par>>
 
 Controller ==
